@@ -60,9 +60,9 @@ func (o c16Op) jsonLine() string {
 }
 
 type c16World struct {
-	in  *Interner
-	ms  *metricstorage.MetricStorage
-	c   *Case
+	in *Interner
+	ms *metricstorage.MetricStorage
+	c  *Case
 	// bookkeeping of the generator / classifier (not used to judge answers)
 	owner  map[string]string // live grouped series "name|labels" -> group
 	gfam   map[string]string // metric name -> "grouped" | "ungrouped"
@@ -512,4 +512,50 @@ func runC16(r *Run) {
 		c.Note(fmt.Sprintf("batches:%d", nb))
 		c.Nontrivial = nb >= 2 && valid >= 1 && grouped >= 1
 	})
+	if r.Thorough() {
+		// exhaustive small scope: every history of 1..2 batches (second batch from the same or another
+		// hook) of 1..2 operations over a 10-operation alphabet that stays outside the finding classes
+		alphabet := []c16Op{
+			{Name: "gg1", Group: "ga", Action: "set", Value: ip(5), Labels: map[string]string{"x": "1"}},
+			{Name: "gg1", Group: "ga", Set: ip(2), Labels: map[string]string{"x": "1"}},
+			{Name: "gc1", Group: "ga", Action: "add", Value: ip(3)},
+			{Group: "ga", Action: "expire"},
+			{Name: "gg1", Group: "gb", Action: "set", Value: ip(6), Labels: map[string]string{"x": "2"}},
+			{Name: "gc1", Group: "gb", Add: ip(2), Labels: map[string]string{"y": "a"}},
+			{Group: "gb", Action: "expire"},
+			{Name: "ug1", Action: "set", Value: ip(4)},
+			{Name: "uc1_total", Action: "add", Value: ip(1), Labels: map[string]string{"x": "1"}},
+			{Name: "ug1", Action: "bogus", Value: ip(2)},
+		}
+		A := len(alphabet)
+		nb := A + A*A // batches of length 1..2
+		batch := func(k int) []c16Op {
+			if k < A {
+				return []c16Op{alphabet[k]}
+			}
+			k -= A
+			return []c16Op{alphabet[k/A], alphabet[k%A]}
+		}
+		total := nb + 2*nb*nb
+		r.Cases(2000000, total, 0, func(c *Case, _ *Rng) {
+			k := c.Idx - 2000000
+			w := newC16World(c)
+			if k < nb {
+				w.send("h1", batch(k))
+				c.Nontrivial = k >= A
+				return
+			}
+			k -= nb
+			second := "h1"
+			if k%2 == 1 {
+				second = "h2"
+			}
+			k /= 2
+			w.send("h1", batch(k/nb))
+			w.send(second, batch(k%nb))
+			c.Nontrivial = true
+		})
+		r.Exhaust = true
+		r.Extra["exhaustive_scope"] = fmt.Sprintf("all %d histories of 1..2 batches (2nd batch by the same or another hook) of 1..2 operations over a %d-operation alphabet (2 groups sharing 2 names, set/add/shortcut/expire, 2 ungrouped, 1 invalid)", total, A)
+	}
 }
